@@ -1354,6 +1354,13 @@ mod expression_parser {
                 );
                 return tuple_elements.pop().unwrap();
               }
+              if let Some(node) = tuple_elements.get(MAX_STRUCT_SIZE) {
+                parser.error_set.report_invalid_syntax_error(
+                  node.loc(),
+                  format!("Maximum allowed tuple size is {MAX_STRUCT_SIZE}"),
+                );
+              }
+              tuple_elements.truncate(MAX_STRUCT_SIZE);
               return expr::E::Tuple(
                 expr::ExpressionCommon {
                   loc,
